@@ -126,8 +126,16 @@ type Parsed struct {
 
 var ErrShortFrame = errors.New("b2f: frame is incomplete")
 
-// ParseFrame parses one frame at the start of b, checking every structural rule.
-func ParseFrame(b []byte) (Parsed, error) {
+// ParseFrame parses one frame at the start of b, checking every structural rule, including the
+// sender-side rules for the title (1..80 ASCII bytes are what a conforming sender emits; here:
+// non-empty ASCII).
+func ParseFrame(b []byte) (Parsed, error) { return parseFrame(b, true) }
+
+// ParseFrameLax is ParseFrame without any rule about the title's content (a receiver does not
+// depend on it; used by the in-transit damage judge of C04).
+func ParseFrameLax(b []byte) (Parsed, error) { return parseFrame(b, false) }
+
+func parseFrame(b []byte, strictTitle bool) (Parsed, error) {
 	var p Parsed
 	if len(b) < 2 {
 		return p, ErrShortFrame
@@ -157,12 +165,14 @@ func ParseFrame(b []byte) (Parsed, error) {
 	if int(p.LenByte) != len(p.Title)+len(p.Offset)+2 {
 		return p, fmt.Errorf("header length byte %d, title+offset+2 = %d", p.LenByte, len(p.Title)+len(p.Offset)+2)
 	}
-	if len(p.Title) == 0 {
-		return p, errors.New("empty title")
-	}
-	for _, c := range []byte(p.Title) {
-		if c >= 0x80 {
-			return p, errors.New("title is not ASCII")
+	if strictTitle {
+		if len(p.Title) == 0 {
+			return p, errors.New("empty title")
+		}
+		for _, c := range []byte(p.Title) {
+			if c >= 0x80 {
+				return p, errors.New("title is not ASCII")
+			}
 		}
 	}
 	if len(p.Offset) == 0 || len(p.Offset) > 6 {
@@ -217,8 +227,13 @@ func ParseFrame(b []byte) (Parsed, error) {
 
 // Judge decides whether frame (exactly one frame) is a fully valid transfer of a message proposed
 // with (code, usize, csize) at offset 0, and returns the message it carries.
-func Judge(frame []byte, code byte, usize, csize int) ([]byte, error) {
-	p, err := ParseFrame(frame)
+func Judge(frame []byte, code byte, usize, csize int) ([]byte, error) { return judge(frame, code, usize, csize, true) }
+
+// JudgeLax is Judge with ParseFrameLax.
+func JudgeLax(frame []byte, code byte, usize, csize int) ([]byte, error) { return judge(frame, code, usize, csize, false) }
+
+func judge(frame []byte, code byte, usize, csize int, strictTitle bool) ([]byte, error) {
+	p, err := parseFrame(frame, strictTitle)
 	if err != nil {
 		return nil, err
 	}
